@@ -605,6 +605,10 @@ type explorer struct {
 	calls       atomic.Int64
 	undecided   atomic.Int64
 	sampled     atomic.Int64
+
+	minMu   sync.Mutex
+	minimal map[string]Case // per signature: the case with the shortest history / simplest call
+	minCost map[string]int
 }
 
 func maskOf(state []int) int {
@@ -664,6 +668,21 @@ func (x *explorer) observe(in *Inst, hist []Event, want int) int {
 	return want
 }
 
+// violate records the deviation and keeps the smallest example of every signature for the evidence file.
+func (x *explorer) violate(sig, desc string, c Case) {
+	x.r.Violate(sig, desc, c)
+	cost := len(c.History)*1000 + len(c.Call.Key())
+	for _, e := range c.History {
+		cost += 1000 * (len(e.T) - 1)
+	}
+	x.minMu.Lock()
+	if old, ok := x.minCost[sig]; !ok || cost < old {
+		c.Note = desc
+		x.minCost[sig], x.minimal[sig] = cost, c
+	}
+	x.minMu.Unlock()
+}
+
 // runBattery executes every call in the current state of the instance; returns the digests per call.
 func (x *explorer) runBattery(in *Inst, hist []Event, mask int, prev map[string][2]string) map[string][2]string {
 	state := stateOf(mask, len(x.u))
@@ -677,7 +696,7 @@ func (x *explorer) runBattery(in *Inst, hist []Event, mask int, prev map[string]
 		devs := Compare(x.u, state, c, rm, rs)
 		key := c.Key()
 		for _, d := range devs {
-			x.r.Violate(d.Sig, d.Desc, Case{Thorough: x.thorough, History: hist, Call: c, Memory: rm.Strings(), SQLite: rs.Strings(), Expected: expected(x.u, state, c)})
+			x.violate(d.Sig, d.Desc, Case{Thorough: x.thorough, History: hist, Call: c, Memory: rm.Strings(), SQLite: rs.Strings(), Expected: expected(x.u, state, c)})
 		}
 		// non-trivial: the filter discriminates in this state (documentation admits one stored tuple and excludes another)
 		y, n, o := 0, 0, 0
@@ -708,7 +727,7 @@ func (x *explorer) runBattery(in *Inst, hist []Event, mask int, prev map[string]
 				if p[0] == d[0] {
 					which = "sqlite"
 				}
-				x.r.Violate(which+"/"+c.Kind+"/result-depends-on-history", fmt.Sprintf("same tuple set reached by another history: first %q, now %q", p, d),
+				x.violate(which+"/"+c.Kind+"/result-depends-on-history", fmt.Sprintf("same tuple set reached by another history: first %q, now %q", p, d),
 					Case{Thorough: x.thorough, History: hist, Call: c, Memory: rm.Strings(), SQLite: rs.Strings(), Note: "compare with the shortest history of the same state"})
 			}
 		}
@@ -785,7 +804,13 @@ func (x *explorer) exploreState(hist []Event, mask int) (succ []int) {
 		// the state is re-reached: quick = battery after the first delete-and-re-add (for the empty
 		// state: add-and-delete); thorough = after every round trip.
 		isReAdd := e.Op == "d"
-		if (x.thorough && isReAdd) || (x.thorough && !addDel && !isReAdd) || (reBatteries == 0 && (isReAdd || mask == 0)) {
+		// quick: battery after the first delete-and-re-add (empty state: add-and-delete). thorough: additionally
+		// after every second further re-add (by parity of tuple index + state size) and after the first add-and-delete.
+		pick := reBatteries == 0 && (isReAdd || mask == 0)
+		if x.thorough && !pick {
+			pick = (isReAdd && (i+len(stateOf(mask, len(x.u))))%2 == 0) || (!isReAdd && !addDel)
+		}
+		if pick {
 			x.runBattery(in, h, mask, first)
 			reBatteries++
 			if !isReAdd {
@@ -797,46 +822,33 @@ func (x *explorer) exploreState(hist []Event, mask int) (succ []int) {
 		}
 	}
 	if x.thorough && mask != 0 {
-		// two more histories on fresh instances: all tuples in ONE Write call, and reverse insertion order
+		// one more history on a fresh instance: all tuples in ONE Write call, in reverse order
 		st := stateOf(mask, len(x.u))
 		rev := append([]int{}, st...)
 		sort.Sort(sort.Reverse(sort.IntSlice(rev)))
-		var revH []Event
-		for _, i := range rev {
-			revH = append(revH, Event{"w", []int{i}})
+		in2 := NewInst()
+		x.instances.Add(1)
+		h2, c2, ok2 := x.step(in2, nil, Event{"w", rev}, 0)
+		if ok2 && c2 == mask {
+			x.runBattery(in2, h2, mask, first)
 		}
-		for _, alt := range [][]Event{{{"w", st}}, revH} {
-			in2 := NewInst()
-			x.instances.Add(1)
-			c2, ok2 := 0, true
-			var h2 []Event
-			for _, e := range alt {
-				h2, c2, ok2 = x.step(in2, h2, e, c2)
-				if !ok2 {
-					break
-				}
-			}
-			if ok2 && c2 == mask {
-				x.runBattery(in2, h2, mask, first)
-			}
-			in2.close()
-		}
+		in2.close()
 	}
 	return succ
 }
 
 func Run(o *core.Options) int {
 	r := core.NewReport(o, "model_checking",
-		"States = tuple sets over a fixed universe (8 tuples quick, 10 thorough) that collides on every filter dimension, reached by write/delete histories executed on a real memory datastore AND a real SQLite database (BFS over histories, one fresh pair of instances per state, deduplicated by the observed store contents). In every state the whole battery of read calls (Read, ReadPage with page sizes 2 and 100, ReadUserTuple, ReadUsersetTuples, ReadStartingWithUser; every listed filter combination incl. empty/duplicated lists) runs on both backends; then every enabled event and its inverse is applied, which re-reaches the state by a delete-and-re-add (or add-and-delete) history on which the battery runs again and is compared with the first instance. A case = (state, call); it is non-trivial when the documented semantics admits at least one stored tuple and excludes at least another one (the filter discriminates in that state); distinct = distinct (state, call) pairs.")
+		"States = tuple sets over a fixed universe (8 tuples quick, 10 thorough) that collides on every filter dimension, reached by write/delete histories executed on a real memory datastore AND a real SQLite database (BFS over histories, one fresh pair of instances per state, deduplicated by the observed store contents). In every state the whole battery of read calls (Read, ReadPage with page sizes 2 and 100, ReadUserTuple, ReadUsersetTuples, ReadStartingWithUser; every listed filter combination incl. empty/duplicated lists) runs on both backends; then every enabled event and its inverse is applied, which re-reaches the state by a delete-and-re-add (or add-and-delete) history; on the first such re-reached instance (thorough: on about half of all of them, plus a one-batch history) the battery runs again and is compared with the first instance. A case = (state, call); it is non-trivial when the documented semantics admits at least one stored tuple and excludes at least another one (the filter discriminates in that state); distinct = distinct (state, call) pairs.")
 	r.Assume(
-		"bound: universe of 8 (quick) / 10 (thorough) tuples => 256 / 1024 states; histories: shortest write history per state, all single-tuple write/delete events from every state with their inverses; thorough additionally one-batch and reverse-order histories and the battery after every round trip",
+		"bound: universe of 8 (quick) / 10 (thorough) tuples => 256 / 1024 states; histories: shortest write history per state, all single-tuple write/delete events from every state with their inverses; thorough additionally a one-batch reverse-order history per state and the battery after about half of the further round trips",
 		"reference semantics = plain-Go transcription of the doc comments in pkg/storage/storage.go (RelationshipTupleReader, ReadFilter, ReadUsersetTuplesFilter, ReadStartingWithUserFilter); the forms `type:` for object and user are read as 'of that type' (public Read API description); where the documentation gives no meaning (relation-only tuple key, empty user filter, userset inside ObjectRelation.Object, present-but-empty condition list, type-only user vs. usersets) only 'memory = SQLite' is required",
 		"results are compared as multisets (documentation: no order guarantee); with WithResultsSortedAscending the sequence must be non-decreasing in the object",
 		"condition round trip: same name and proto.Equal context, an absent context being equal to an empty one",
 		"SQL backend = SQLite only (PostgreSQL/MySQL need a server; they share sqlcommon but have their own filter builders)",
 		"each SQLite instance is a file copy of one migrated empty template database",
 	)
-	x := &explorer{r: r, thorough: o.Thorough(), u: Universe(o.Thorough()), battery: Battery(o.Thorough())}
+	x := &explorer{r: r, thorough: o.Thorough(), u: Universe(o.Thorough()), battery: Battery(o.Thorough()), minimal: map[string]Case{}, minCost: map[string]int{}}
 	defer func() {
 		if tpl.rm != nil {
 			tpl.rm()
@@ -923,6 +935,9 @@ func Run(o *core.Options) int {
 	r.Traces = x.transitions.Load()
 	r.Set("universe", x.u)
 	r.Set("max_depth", depth)
+	if len(x.minimal) > 0 {
+		r.Set("minimal_example_per_signature", x.minimal)
+	}
 	r.Set("battery_calls_per_state_and_backend", len(x.battery))
 	r.Count("instances_created_per_backend", x.instances.Load())
 	r.Count("batteries_run", x.batteries.Load())
